@@ -3,6 +3,7 @@ package main
 import (
 	"crypto/sha1"
 	"fmt"
+	"os"
 	"runtime"
 	"sync"
 	"sync/atomic"
@@ -43,6 +44,8 @@ func concStress(args []string) *Result {
 		return res
 	}
 	seed, rounds, G := atoi(args[1]), atoi(args[2]), atoi(args[3])
+	buildRepeat := 1
+	fmt.Sscan(os.Getenv("VH_BUILD_REPEAT"), &buildRepeat)
 	w := newNDJSON(args[4])
 	defer w.close()
 	r := newRng(uint64(seed))
@@ -93,6 +96,19 @@ func concStress(args []string) *Result {
 			go func(g int, b base, order []string) {
 				defer wg.Done()
 				<-start
+				// VH_BUILD_REPEAT > 1: the goroutine rebuilds its project in a tight loop first (many overlapping builds)
+				for rep := 1; rep < buildRepeat; rep++ {
+					jr, okr, msgr := b.src.build()
+					if !okr {
+						record(concEvent{Ev: "call", G: g, Seq: 0, Project: b.src.name, Acc: "Build", Digest: "rejected:" + msgr, Want: "accepted", Phase: "independent"})
+						return
+					}
+					out, es := accessors["ToJson"](&jr)
+					if d := dig(out, es); d != b.want["ToJson"] {
+						record(concEvent{Ev: "call", G: g, Seq: 0, Project: b.src.name, Acc: "ToJson", Digest: d, Want: b.want["ToJson"], Phase: "independent"})
+						return
+					}
+				}
 				j, ok, msg := b.src.build()
 				if !ok {
 					record(concEvent{Ev: "call", G: g, Seq: 0, Project: b.src.name, Acc: "Build", Digest: "rejected:" + msg, Want: "accepted", Phase: "independent"})
